@@ -16,11 +16,21 @@ import (
 	"github.com/insomniacslk/dhcp/dhcpv4"
 )
 
+// maxUDPv4Payload is the largest UDP payload an IPv4 datagram can carry
+// (65535 - 20 bytes of IPv4 header - 8 bytes of UDP header)
+const maxUDPv4Payload = 65535 - 20 - 8
+
 //this function sends an unicast to the hardware address defined in resp.ClientHWAddr,
 //the layer3 destination address is still the broadcast address;
 //iface: the interface where the DHCP message should be sent;
 //resp: DHCPv4 struct, which should be sent;
 func sendEthernet(iface net.Interface, resp *dhcpv4.DHCPv4) error {
+	// The length fields of the UDP and IPv4 headers (and the length gopacket keeps for the
+	// DHCPv4 layer) are 16 bits wide: a reply that does not fit in one datagram cannot be
+	// sent, and serialising it below would index out of range
+	if n := len(resp.ToBytes()); n > maxUDPv4Payload {
+		return fmt.Errorf("Send Ethernet: reply of %d bytes does not fit in a UDP datagram (%d)", n, maxUDPv4Payload)
+	}
 
 	eth := layers.Ethernet{
 		EthernetType: layers.EthernetTypeIPv4,
